@@ -91,6 +91,13 @@ impl<E: FieldElement, H: ElementHasher<BaseField = E::BaseField>> VerifierChanne
             .map_err(|err| VerifierError::ProofDeserializationError(err.to_string()))?;
 
         // --- parse trace and constraint queries -------------------------------------------------
+        if num_unique_queries == 0 || num_unique_queries as usize > air.options().num_queries() {
+            return Err(VerifierError::ProofDeserializationError(format!(
+                "number of unique queries must be between 1 and {}, but was {}",
+                air.options().num_queries(),
+                num_unique_queries
+            )));
+        }
         let trace_queries = TraceQueries::new(trace_queries, air, num_unique_queries as usize)?;
         let constraint_queries =
             ConstraintQueries::new(constraint_queries, air, num_unique_queries as usize)?;
